@@ -199,43 +199,42 @@ def errJ : LoadErr → Json
 def entriesJ (es : List Entry) : Json :=
   Json.arr (es.map (fun (p, t) => Json.arr #[Json.arr (p.map Json.str).toArray, testJ t])).toArray
 
-def answer (r : Except LoadErr (List Suite)) (decl full : List Entry) (nd nf : Bool) (accepts : Option Bool) : Json :=
+def answer (r : Except LoadErr (List Suite)) (decl full : List Entry) (nd : Bool) (accepts : Option Bool) : Json :=
   let acc := match accepts with | none => Json.null | some b => Json.bool b
   match r with
   | .error e => Json.mkObj [("load_error", errJ e), ("declared", entriesJ decl), ("declared_full", entriesJ full),
-                            ("no_dunder", .bool nd), ("no_falsy_cond", .bool nf), ("accepts", acc)]
+                            ("no_dunder", .bool nd), ("accepts", acc)]
   | .ok ss => Json.mkObj [("ok", Json.arr (ss.map suiteJ).toArray),
                           ("entries", entriesJ (Suite.entriesList ss)),
                           ("declared", entriesJ decl), ("declared_full", entriesJ full),
-                          ("no_dunder", .bool nd), ("no_falsy_cond", .bool nf), ("accepts", acc)]
+                          ("no_dunder", .bool nd), ("accepts", acc)]
 
-/-- The real entry points are `core ∘ strip… ∘ norm…` (`Model/Loader.lean`): `declared` is the specification on the
-    stripped, normalised layout (what the theorems equate the loaded tree with), `declared_full` the specification on
-    the layout as written (what the property demands). -/
+/-- The real entry points are `core ∘ strip…` (`Model/Loader.lean`): `declared` is the specification on the stripped
+    layout (what the theorems equate the loaded tree with), `declared_full` the specification on the layout as written
+    (what the property demands). -/
 def handle (j : Json) : Except String Json := do
   let entry ← getStr j "entry"
   match entry with
   | "dir" =>
     let d ← parseDir (← j.getObjVal? "dir")
-    pure (answer (loadDirReal d) (declDir (stripDir (normDir d))) (declDir d) (noDunderDir d) (noFalsyDir d) none)
+    pure (answer (loadDirReal d) (declDir (stripDir d)) (declDir d) (noDunderDir d) none)
   | "files" =>
     let ms ← (← getArrD j "mods").mapM parseModule
-    pure (answer (loadFilesReal ms) (declFiles (stripModules (normModules ms))) (declFiles ms) (noDunderModules ms)
-      (noFalsyModules ms) none)
+    pure (answer (loadFilesReal ms) (declFiles (stripModules ms)) (declFiles ms) (noDunderModules ms) none)
   | "file" =>
     let m0 ← parseModule (← j.getObjVal? "mod")
-    let m := stripModule (normModule m0)
+    let m := stripModule m0
     -- `load_suite_from_file` returns the suite even if hidden or empty
     let declOf := fun (m : Loader.Module) => match collapsesTo m with
       | some c => underSuite c.head.suiteName (declClsBody c)
       | none => underSuite m.suiteName (declModuleBody m)
-    pure (answer ((loadFile m).map (fun s => [s])) (declOf m) (declOf m0) (noDunderModules [m0]) (noFalsyModule m0)
+    pure (answer ((loadFile m).map (fun s => [s])) (declOf m) (declOf m0) (noDunderModules [m0])
       (some (acceptsModule m)))
   | "class" =>
     let c0 ← parseCls (← j.getObjVal? "cls")
-    let c := stripCls (normCls c0)
+    let c := stripCls c0
     pure (answer ((loadClass c).map (fun s => [s])) (underSuite c.head.suiteName (declClsBody c))
-      (underSuite c0.head.suiteName (declClsBody c0)) (noDunderCls c0) (noFalsyCls c0) (some (acceptsCls c)))
+      (underSuite c0.head.suiteName (declClsBody c0)) (noDunderCls c0) (some (acceptsCls c)))
   | "vis" =>
     -- the decision alone: what the code's expression stores in `.hidden` and what its readers do with it
     let v ← parseVis j
